@@ -32,6 +32,8 @@ func main() {
 		runK4(r, n, true)
 	case "k13big":
 		runK13big(r, n)
+	case "kxattr":
+		runKxattr(r, n)
 	case "kmsz":
 		runKmsz(r, n)
 	case "k5":
